@@ -37,8 +37,12 @@ package storage
 
 //@ ghost notExist bool
 
+// Writing an object replaces it: the file is opened so that existing content is
+// truncated (otherwise a shorter overwrite would keep the old tail).
+//@ ghost trunc bool
 //@ contract (*FSObject).NewWriter
-//@   modifies nothing
+//@   ensures result1 == nil ==> $trunc
+//@   modifies $trunc
 
 // The walk callback: an entry is listed exactly if it is a file whose
 // slash-separated path starts with the prefix; a walk error is passed on (the
